@@ -1,6 +1,6 @@
 (* C20 - meaning-preserving transformations preserve what is built. *)
 From Fiddle Require Import PyBase PySlice Sig ArgStore ArgSpec PyCall C01Check Heap Traverse Build
-  Build_stmt Traverse_proofs Tags Eq Transform Anchors PyCall_proofs Iso_proofs Copy_proofs
+  Build_stmt Traverse_proofs Tags Eq Transform AnchorsBuild PyCall_proofs Iso_proofs Copy_proofs
   Transform_proofs.
 
 (* ------------------------------------------------------------------ materialize_defaults, one Buildable *)
